@@ -199,20 +199,33 @@ def s5_valuation(ctx):
     ctx.require(ok, 'C02.S5', 'market_value = current_price * net_quantity', ctx.fn('Position.market_value').site(), [fmt(p.value) for p in ps],
                 key='C02.S5|market_value')
     # sum over all positions
-    ps = summarise(ctx, 'PositionHandler.total_market_value', policy=default_policy)
-    ok = False
-    if len(ps) == 1 and ps[0].value is not None:
-        v = ps[0].value
-        if v[0] == 'call' and v[1] == ('ext', 'SUM') and len(v[2]) == 1 and v[2][0][0] == 'comp':
-            comp = v[2][0]
-            gens = comp[3]
-            if len(gens) == 1 and not gens[0][2] and fmt(gens[0][1]) in ('self.positions.items()', 'self.positions.values()'):
-                bvs = gens[0][0]
-                posv = bvs[-1]
-                exp = T.t_mul(('attr', posv, 'current_price'), T.t_sub(('attr', posv, 'buy_quantity'), ('attr', posv, 'sell_quantity')))
-                ok = T.teq(comp[2], exp)
-    ctx.require(ok, 'C02.S5', 'total_market_value sums market_value over every open position', ctx.fn('PositionHandler.total_market_value').site(),
-                [fmt(p.value) for p in ps], key='C02.S5|total_market_value')
+    from .c03 import linear_sum, POS, main_sum_path
+
+    def no_props(caller, callee, depth):
+        # the per-position figures stay symbolic (market_value is checked above); helpers of the handler itself (a shared totals step) are read through
+        if callee.is_property or depth > 5:
+            return False
+        own = callee.cls is not None and callee.cls.name in ('PositionHandler', 'Portfolio') and not callee.name.startswith('total_') and callee.name != '__init__'
+        return default_policy(caller, callee, depth) or own
+    tfn = ctx.fn('PositionHandler.total_market_value')
+    ps = summarise(ctx, 'PositionHandler.total_market_value', policy=no_props)
+    mp = main_sum_path(ps)
+    nps = [mp] if mp is not None and mp.value is not None else []
+    ls = None
+    if len(nps) == 1:
+        try:
+            ls = linear_sum(nps[0].value, nps[0]) if nps[0].value != ZERO else None
+        except Exception:
+            ls = None
+    if ls is None:
+        ctx.undecided('C02.S5', 'total_market_value is a sum over the positions', tfn.site(), [fmt(p.value)[:160] if p.value is not None else p.outcome for p in ps][:3])
+    else:
+        total, its, ifs = ls
+        ok = bool(its) and all(i in ('self.positions.items()', 'self.positions.values()') for i in its) and not ifs and \
+            (T.teq(total, A(POS, 'market_value')) or T.teq(total, T.t_mul(A(POS, 'current_price'), T.t_sub(A(POS, 'buy_quantity'), A(POS, 'sell_quantity')))) or
+             T.teq(total, T.t_mul(A(POS, 'current_price'), A(POS, 'net_quantity'))))
+        ctx.require(ok, 'C02.S5', 'total_market_value sums market_value over every open position', tfn.site(),
+                    'sums %s over %s%s' % (fmt(total)[:120], its, (' where ' + ', '.join(fmt(q)[:60] for q in ifs)) if ifs else ''), key='C02.S5|total_market_value')
     ps = summarise(ctx, 'Portfolio.total_equity', policy=default_policy)
     ok = len(ps) == 1 and ps[0].value is not None
     if ok:
